@@ -109,6 +109,7 @@ theorem applyForDistances_vals (c : Cfg V) (now m : Nat) {P : V → Prop} :
         · exact hs'
         · exact ih _ _ hs'
 
+omit [DecidableEq V] in
 theorem nodesByDistances_length_le (c : Cfg V) (now : Nat) (t : Table V) (ds : List Nat) (m : Nat)
     (hm : 1 ≤ m) : (t.nodesByDistances c now ds m).2.length ≤ m := by
   unfold Table.nodesByDistances
@@ -142,7 +143,7 @@ theorem nodesByDistances_nil (c : Cfg V) (now : Nat) (t : Table V) (m : Nat) :
 end Discv5.KB
 
 namespace Discv5.Svc
-open Discv5.KB
+open Discv5.KB Discv5.Svc.Svc
 
 /-! ### `sort_unstable` + `dedup` -/
 
